@@ -433,11 +433,11 @@ func init() {
 	props["C09"] = func(r *Result, d *drv.Driver, tier string, seed int64, replay string) {
 		r.Rule = sessRule("C09 oracle: no call/response after a failed session auth; no call for rejected or uncheckable credentials; every call sees its own connection's session id/auth and its own request's auth value.")
 		b, p := sizes(tier)
-		sessionCorrespondence(r, d, seed*31+9, b, p+2, scriptOpts{maxArr: 8, maxItems: 3}, 150*time.Millisecond, oracleC09)
+		sessionCorrespondence(r, d, seed*31+9, b, p+2, scriptOpts{maxArr: 8, maxItems: 3, credHeavy: true}, 150*time.Millisecond, oracleC09)
 		// the same on a single P: a burst of queued connections is accepted back to back before any session goroutine
 		// gets to run, so anything a session reads late from the accept loop's variables is read after the loop moved on
 		old := runtime.GOMAXPROCS(1)
-		sessionCorrespondence(r, d, seed*31+109, b/4+2, p+6, scriptOpts{maxArr: 4, maxItems: 2}, 150*time.Millisecond, oracleC09)
+		sessionCorrespondence(r, d, seed*31+109, b/4+2, p+6, scriptOpts{maxArr: 4, maxItems: 2, credHeavy: true}, 150*time.Millisecond, oracleC09)
 		runtime.GOMAXPROCS(old)
 		r.Stats["phase:single-P-burst-batches"] = b/4 + 2
 	}
